@@ -362,6 +362,25 @@ func c14body(c *Ctx, guard func(key, what string, cs map[string]interface{}, f f
 		cnts = append(cnts, n)
 	}
 	cnts = append(cnts, intBoundaries()...)
+	// extreme counts go through the sandboxed child (see C09): an out-of-memory death or a stall is
+	// a failure to "return normally" just like a panic
+	var bigc []countCall
+	var small []int
+	for _, n := range cnts {
+		if n > 4096 || n < -4096 {
+			bigc = append(bigc, countCall{N: n, L: 6})
+		} else {
+			small = append(small, n)
+		}
+	}
+	for cc, r := range runCountSandbox(c, bigc) {
+		c.Eval(1)
+		if r.Died != "" || r.Panic != "" {
+			c.Violate(fmt.Sprintf("panic:New:%d", cc.N), fmt.Sprintf("NewMnemonic(%d, Korean) did not return normally: %s%s", cc.N, r.Died, r.Panic),
+				map[string]interface{}{"kind": "wordcount", "count": cc.N, "lang": 6})
+		}
+	}
+	cnts = small
 	for _, n := range cnts {
 		n := n
 		for _, fail := range []bool{false, true} {
